@@ -787,6 +787,22 @@ class FnLower:
         e = self.rv(a)
         return e
 
+    def repo_default_arg(self, f, i, a):
+        """defaulted argument of a repository function: the default expression written on the
+        parameter declaration (scalar constants only)"""
+        node = f.node
+        seen = 0
+        while node is not None and seen < 8:
+            seen += 1
+            ps = [c for c in node.get('inner', []) if isinstance(c, dict) and c.get('kind') == 'ParmVarDecl']
+            if i < len(ps):
+                init = [c for c in kids(ps[i])]
+                if init and not self.L.is_class(qt(a)) and not self.is_glvalue(a):
+                    return self.rv(init[0])
+            prev = node.get('previousDecl')
+            node = self.L.by_id.get(prev) if prev else None
+        raise Unsupported('defaulted argument of a repository function (type %s)' % qt(a))
+
     # ---- calls
     def callee_info(self, n):
         """-> dict(kind='repo'|'ext', name, self_arg(ptr or None), args(list of nodes), noexcept, ftype)"""
@@ -945,7 +961,10 @@ class FnLower:
                 args.append('&' + tmp_ret)
         if info.get('selfp') is not None:
             args.append(info['selfp'])
-        for a in info['args']:
+        for i, a in enumerate(info['args']):
+            if kind == 'repo' and a.get('kind') == 'CXXDefaultArgExpr' and not kids(a):
+                args.append(self.repo_default_arg(info['f'], i, a))
+                continue
             args.append(self.arg(a, ext=(kind != 'repo')))
         callexpr = '%s(%s)' % (name, ', '.join(args))
         ct = self.L.ctype(q) if not self.is_glvalue(n) else self.L.ctype(q) + '*'
